@@ -35,6 +35,17 @@ CHECKS = {
     "C18": ("model-based request histories (Hypothesis operation sequences + exhaustive sequences up to length 3) with invariants after every step: fresh-object differential, snapshots of returned arrays and of input data; repeated commands",
             "After every request of a generated history the result equals that of a freshly built dataset, earlier results and the inputs' arrays are unchanged; all 5655 sequences of length <=3 over a 12-request menu on 3 datasets are enumerated; commands repeated twice print the same output.",
             "In-memory inputs keep arrays as attributes (like verif.input.Text). PIT randomisation with x0/x1 is a listed finding and is generated in its own campaign.", "DESIGN.md section 5, C18"),
+    "C05": ("Hypothesis-generated obs/fcst vectors with forced degenerate classes and generated datasets; differential against textbook formulas in exact rational arithmetic; perfect-score and bound metamorphic checks",
+            "22 deterministic metrics x 17 aggregators on ~4800 vectors and ~1200 datasets per quick run are compared with independent definitions (Fraction arithmetic, from-scratch rank statistics); undefined cases must be NaN/non-finite without exception; "
+            "identical forecasts attain the documented perfect score and nothing beats it; obs/fcst/within and -x obs/-x fcst through the csv code path.",
+            "Trusts the textbook definitions written in vlib/model.py; dyadic values so that sums are exact; tolerance 1e-9.", "DESIGN.md section 5, C05"),
+    "C06": ("exhaustive enumeration of all 2x2 tables up to a total + Hypothesis vectors/thresholds/bin types; differential against exact Fraction/log formulas; swap and complement metamorphic relations",
+            "All 1819 (quick) / 14949 (thorough) tables x 25 metrics through compute_from_abcd and compute_from_obs_fcst; counts a,b,c,d,n from vectors under all eight bin types with thresholds at/between/outside the data; "
+            "NaN exactly where undefined, never infinity; swap/complement/perfect relations; csv through files.",
+            "Trusts the textbook formulas in vlib/model.py and the documented event semantics (C07).", "DESIGN.md section 5, C06"),
+    "C15": ("Hypothesis-generated arrays (1-4 dims, every axis) against pure-Python statistics; generated datasets with irregular grids against a windowed-aggregate model of -T, via API and csv",
+            "Each aggregator (14 named + quantile levels) along every axis equals the list statistic; under -T every obs/fcst/ensemble-member value entering a score equals the aggregate over the trailing window (x-h, x] of the same series.",
+            "Lead times/times ascending within a file under -T; a missing value in a window makes every statistic but count (and change, which uses the end points) missing; float32 tolerance 2e-6.", "DESIGN.md section 5, C15"),
     "C07": ("exhaustive enumeration of value/threshold order relations + Hypothesis random floats against a plain-comparison oracle",
             "Complete enumeration of the order relations a value can have to 1-3 thresholds for all eight bin types (scalar, array, "
             "apply_threshold, 2x2 cells, event probabilities, partition laws) plus random float cases; decides the property on the "
